@@ -206,7 +206,7 @@ def run_case(ctx, rep, spec, recipe, kept, serial, model, start=None, species=No
 
 
 def run(ctx, rep, model=True):
-    n = 6 if ctx.quick else 40
+    n = 10 if ctx.quick else 50
     for i in range(n):
         spec = plotgen.random_spec(ctx.rng, ndims=3, nlev=[2, 1, 3][i % 3], nf=[3, 4, 2][i % 3], data="smallint", B=2,
                                    layout=["scatter", "perm", "files"][i % 3], profile="plain")
@@ -219,7 +219,7 @@ def run(ctx, rep, model=True):
         if len(rep.violations) >= 10:
             return
     # thermochemical recipes on a 21-species synthetic plotfile with tiny boxes
-    nb = 5 if ctx.quick else 20
+    nb = 8 if ctx.quick else 24
     combos = [("HRR", None, None, None), ("ENT", "temp density", None, None), ("SRi", "temp", ["O2", "H2"], None),
               ("SDi", None, ["CH4"], None), ("RRi", "x_velocity temp", None, [0, 5, 83]), ("rec3", "density", None, None),
               ("HRR", "temp", None, None), ("SRi", None, ["N2", "AR", "OH"], None)]
